@@ -83,6 +83,20 @@ def rule_pipe(ctx: Ctx) -> RuleResult:
         ok = norm(a0) == f"str({us.params[0]})" and isinstance(a1, ast.BinOp) and norm(a1.left) == "list_search_unfolders" \
             and isinstance(a1.right, ast.IfExp) and norm(a1.right.test) == "do_extrapolate" and norm(a1.right.body) == "[extrapolate]" \
             and norm(a1.right.orelse) == "[]"
+        if not ok and norm(a0) == f"str({us.params[0]})" and isinstance(argv[1], ast.Name):
+            # the same list built by statements: a COPY of list_search_unfolders, `extrapolate` appended only under do_extrapolate
+            lname = argv[1].id
+            uflow = flow_of(us.node)
+            cn_ = uflow.node_of(calls[0])
+            ds_ = [d for d in (uflow.defs_reaching(cn_.id, lname) if cn_ is not None else [])]
+            copies = [d for d in ds_ if d.kind == "assign" and d.value is not None and norm(d.value) in (
+                "list(list_search_unfolders)", "list_search_unfolders.copy()", "list_search_unfolders[:]", "[*list_search_unfolders]",
+                "list_search_unfolders + []", "[] + list_search_unfolders")]
+            muts = [n for n in own_nodes(us.node) if isinstance(n, ast.Call) and isinstance(n.func, ast.Attribute) and isinstance(n.func.value, ast.Name)
+                    and n.func.value.id == lname and n.func.attr in ("append", "extend", "insert", "remove", "pop", "sort", "reverse", "clear")]
+            good_muts = [n for n in muts if n.func.attr == "append" and len(n.args) == 1 and norm(n.args[0]) == "extrapolate"
+                         and ("do_extrapolate", True) in facts_at(ctx, us, n)]
+            ok = len(copies) == len(ds_) == 1 and len(good_muts) == len(muts) == 1
     if ok:
         res.ok("unfold_search", "apply_unfolders(str(search_sid), list_search_unfolders + ([extrapolate] if do_extrapolate else []))")
     else:
@@ -338,20 +352,21 @@ def rule_expand(ctx: Ctx) -> RuleResult:
                and isinstance(n.func.value, ast.Name) and n.func.value.id in {norm(r.value.args[0]) if isinstance(r.value, ast.Call) and r.value.args
                                                                                 else norm(r.value) for r in _rets(f) if r.value is not None}
                | {"result"}]
+    from ..shape import alternatives
+    from ..effects import _short_circuit_facts as _scf
+
     for what, node in [("the template is tried", repl[0])] + [("the typed search is kept", a) for a in appends]:
         wrong = None
-        for e, truth in fact_nodes_at(ctx, f, node):
-            for c in [x for x in ast.walk(e) if isinstance(x, ast.Compare) and len(x.ops) == 1 and norm(x.comparators[0]) == "leaf_key"]:
-                negated_inside = isinstance(c.ops[0], ast.NotEq)
-                if (not truth) != negated_inside and not (negated_inside and not truth):
-                    wrong = c
-                if negated_inside and truth:
-                    wrong = c
-                if (not negated_inside) and not truth:
-                    wrong = c
+        for t, lab in list(ctx.ef._dominating_tests(cfg, node)) + list(_scf(f.node, node)):
+            if "leaf_key" not in norm(t):
+                continue
+            for alt in alternatives(t, lab == "true"):
+                leaf_false = [txt for txt, tr in alt if txt.endswith("== leaf_key") and not tr]
+                if leaf_false and ("do_extrapolate", True) not in alt:
+                    wrong = leaf_false[0]
         if wrong is not None:
-            res.violation([f.qualname, "leaf polarity", what], f"expand: {what} when `{norm(wrong)}` does NOT hold: '/**' is completed to the types "
-                                                               f"that do not end in the leaf key", f.relpath, wrong.lineno)
+            res.violation([f.qualname, "leaf polarity", what], f"expand: {what} when `{wrong}` does NOT hold: '/**' is completed to the types "
+                                                               f"that do not end in the leaf key", f.relpath, node.lineno)
     once = any(isinstance(n, ast.Compare) and "count('/**')" in norm(n.left) and norm(n.comparators[0]) == "1" and isinstance(n.ops[0], ast.Gt)
                for n in own_nodes(f.node))
     if once:
@@ -889,8 +904,11 @@ def rule_deleg(ctx: Ctx) -> RuleResult:
         res.ok("DataSid.children search", "self / '*'")
     else:
         res.violation([ch.qualname, "search"], "children() does not search self / '*'", ch.relpath, ch.node.lineno)
-    leaf = any(isinstance(n, ast.If) and norm(n.test) == "self.is_leaf()" and any(isinstance(x, ast.Return) and norm(x.value) == "[]" for x in n.body)
-               for n in own_nodes(ch.node))
+    from ..shape import facts_at as _facts_at
+
+    ch_rets = [r for r in _rets(ch) if r.value is not None]
+    leaf = (any(norm(r.value) == "[]" and ("self.is_leaf()", True) in _facts_at(ctx, ch, r) for r in ch_rets)
+            and all(("self.is_leaf()", False) in _facts_at(ctx, ch, r) for r in ch_rets if norm(r.value) != "[]"))
     il = p.function("spil.sid.sid.TypedSid.is_leaf")
     leaf_conf = any(r.value is not None and norm(r.value) == "bool(self.get(conf.leaf_keys.get(self.basetype)))" for r in _rets(il))
     if leaf and leaf_conf:
@@ -1477,7 +1495,7 @@ def rule_narrow(ctx: Ctx) -> RuleResult:
                           f.relpath, c.lineno, site=site)
             continue
         # the narrowed Sid is what goes on
-        par_assign = [n for n in own_nodes(f.node) if isinstance(n, ast.Assign) and n.value is c]
+        par_assign = [n for n in own_nodes(f.node) if isinstance(n, (ast.Assign, ast.Return)) and n.value is c]
         if not par_assign:
             res.violation([f.qualname, table, "result dropped"], f"type_narrow: the result of `{norm(c)}` is not kept", f.relpath, c.lineno, site=site)
             continue
